@@ -395,7 +395,20 @@ func c10R5(c *Ctx) {
 			case "default":
 				hasDefault = true
 			case "recv":
-				replyCh = eng.ObjOf(info, sc.Chan)
+				o := eng.ObjOf(info, sc.Chan)
+				if o == nil {
+					continue
+				}
+				def := f.LocalVarDef(o)
+				if def != nil {
+					if k, _ := eng.ClassifyRecvChan(info, def); k == "timer" {
+						hasTimer = true
+						continue
+					}
+				}
+				if isMake, _ := eng.MakeChan(info, defOrNil(def)); isMake || replyCh == nil {
+					replyCh = o
+				}
 			}
 		}
 		c.Check(K(f.Name, "select ctx case"), sels[0].Pos(), hasCtx && !hasDefault, "the reply wait can be left through the caller's context", "no <-ctx.Done() case")
